@@ -283,6 +283,32 @@ def r9_3(ctx, S):
                    'a path leaves %s after exception_handler_usecount++ (%s) without the '
                    'matching decrement: the signal handlers stay installed and the TLS '
                    'jump buffer points into a dead frame' % (f.name, f.loc(inc)))
+        # and the converse: every decrement undoes an increment of the same activation
+        decs = [n for n in f.all_nodes() if n['k'] == 'un' and n['op'] in ('post--', '--')
+                and f.kid(n, 0) is not None and f.kid(n, 0).get('name') == 'exception_handler_usecount']
+        if decs:
+            bad3 = []
+
+            def step3(n, facts):
+                if n['k'] == 'un' and f.kid(n, 0) is not None and \
+                        f.kid(n, 0).get('name') == 'exception_handler_usecount':
+                    if n['op'] in ('post++', '++'):
+                        return facts | {'inc'}
+                    if n['op'] in ('post--', '--'):
+                        if 'inc' not in facts:
+                            bad3.append(n)
+                        return frozenset(x for x in facts if x != 'inc')
+                if n['k'] == 'ret':
+                    return None
+                return facts
+            paths.explore(f, set(), step3, None, max_states=256)
+            ctx.ob('R9.3', '%s:usecount-decrement-matches-increment' % f.name, not bad3,
+                   f.loc(bad3[0]) if bad3 else f.loc(decs[0]),
+                   'every decrement of the handler use count follows an increment on the same path'
+                   if not bad3 else
+                   'exception_handler_usecount is decremented here on a path that did not increment '
+                   'it: with two overlapping scans the count reaches 0 (or goes negative) while a scan '
+                   'still relies on the signal handlers, which are then uninstalled')
     ctx.count('handler_global_accesses', n_acc)
 
 
